@@ -16,22 +16,22 @@ import (
 // attribution (DESIGN.md §5 C07).
 
 type C07File struct {
-	Path  string `json:"path"` // relative to data/
-	ID    string `json:"id"`   // expected source id
-	Lens  []int  `json:"lens"` // payload length per line
+	Path string `json:"path"` // relative to data/
+	ID   string `json:"id"`   // expected source id
+	Lens []int  `json:"lens"` // payload length per line
 	// NoFinalNL: the last line of the file is not terminated by a newline
 	NoFinalNL bool `json:"no_final_nl,omitempty"`
 }
 
 type C07Scenario struct {
 	ScenarioBase
-	Kind    string              `json:"kind"` // cat | grep
-	Hosts   []string            `json:"hosts"`
-	Glob    string              `json:"glob"`
-	Files   []C07File           `json:"files"`
-	Cfg     ServerCfg           `json:"cfg"`
-	Stalls  []StallSpec         `json:"stalls"`
-	Net     verifsimnet.Profile `json:"net"`
+	Kind   string              `json:"kind"` // cat | grep
+	Hosts  []string            `json:"hosts"`
+	Glob   string              `json:"glob"`
+	Files  []C07File           `json:"files"`
+	Cfg    ServerCfg           `json:"cfg"`
+	Stalls []StallSpec         `json:"stalls"`
+	Net    verifsimnet.Profile `json:"net"`
 	// Compress: every file is stored compressed under its name + "." + Compress
 	// (gz | zst | ""), and the glob carries the same suffix
 	Compress string `json:"compress,omitempty"`
